@@ -170,3 +170,15 @@ Definition weekday_sub_u8 (a : Z) (rhs : Z) : option Z :=
   | Some s => option_map weekday_from_u8 (checked 0 U8_MAX (s - trem rhs WEEKDAY_MAX))
   end.
 Definition to_c89_weekday (a : Z) : option Z := weekday_add_u8 a 1.
+
+(* with_hms_strict (with_funcs.rs): keep sign and whole days of the duration, replace the time of day *)
+Definition with_hms_strict (e : epoch) (h m s : Z) : epoch :=
+  let '(sign, (days, _, _, _, _, _, _)) := decompose (dur e) in mkE (compose sign days h m s 0 0 0) (scale e).
+Definition next_weekday_at (e : epoch) (w h : Z) : option epoch := option_map (fun x => with_hms_strict x h 0 0) (epoch_next e w).
+Definition previous_weekday_at (e : epoch) (w h : Z) : option epoch := option_map (fun x => with_hms_strict x h 0 0) (epoch_previous e w).
+(* year(), month_name() as an index 0..11 (MonthName::from(u8): anything outside 1..12 is January), and the
+   hours() .. nanoseconds() accessors, which expose the decomposition of the duration *)
+Definition epoch_accessors (e : epoch) : list Z :=
+  let '(y, mm, _, _, _, _, _) := compute_gregorian (dur e) (scale e) in
+  let '(_, (_, h, mi, s, ms, us, ns)) := decompose (dur e) in
+  [y; (if (1 <=? mm) && (mm <=? 12) then mm - 1 else 0); h; mi; s; ms; us; ns].
